@@ -1,13 +1,24 @@
-(* Correspondence checker for C10: a history of add / autoescape_on calls on one instance;
+(* Correspondence checker for C10: a history of add_raw_templates / add_template_file(s) /
+   autoescape_on calls on one instance;
    after each call the implementation's accept/reject + ErrorKind is compared with the model
    (membership in the set of applicable kinds when several errors apply, as for C11).
    Model of the REPAIRED code for D10, as in CorrC11. *)
-From TeraV Require Import Model.Value Model.Registry Corr.CorrC11.
+From TeraV Require Import Model.Value Model.Registry Model.RegistryGlob Corr.CorrC11.
 Close Scope Z_scope.
+
+(* one (path, name) pair given to add_template_files and what the harness put at that path
+   just before the engine read it *)
+Inductive hfsrc :=
+| HFPool (i : nat)            (* a readable UTF-8 file holding the source of pool entry i *)
+| HFBadPath                   (* a path that is not valid UTF-8 *)
+| HFNoOpen                    (* no file at that path *)
+| HFNoRead.                   (* a file whose content is not UTF-8, or a directory *)
+Record hfile := { hf_path : name; hf_src : hfsrc; hf_name : option name }.
 
 Inductive hcall :=
 | HAdd (idx : list nat)       (* batch: indices into the case's pool *)
-| HAuto (sufs : list name).
+| HAuto (sufs : list name)
+| HAddFiles (fs : list hfile).  (* add_template_files; a single file = add_template_file *)
 
 Record hist_case := {
   h_pre : list name;
@@ -17,10 +28,24 @@ Record hist_case := {
   h_calls : list hcall;
   h_impl : list (rres unit) }.
 
+Definition expand_file (pool : list (name * source)) (f : hfile) : fentry :=
+  {| fe_path := hf_path f;
+     fe_read := match hf_src f with
+                | HFPool i => match nth_error pool i with
+                              | Some p => FRead (snd p)
+                              | None => FNoOpen
+                              end
+                | HFBadPath => FBadPath
+                | HFNoOpen => FNoOpen
+                | HFNoRead => FNoRead
+                end;
+     fe_name := hf_name f |}.
+
 Definition expand (pool : list (name * source)) (c : hcall) : call :=
   match c with
   | HAdd idx => CAdd (filter_map (fun i => nth_error pool i) idx)
   | HAuto sufs => CAuto sufs
+  | HAddFiles fs => CAddFiles (map (expand_file pool) fs)
   end.
 
 Definition model_history (c : hist_case) : list (rres unit) :=
@@ -39,6 +64,8 @@ Fixpoint check_run (ev : env) (s : state) (calls : list call) (impl : list (rres
            | CAdd b => let '(_, m1, _) := insert_all (st_tpls s) b [] in
                        applicable (ev_prefixes ev) (sources m1) e'
            | CAuto _ => false
+           | CAddFiles fs => let '(_, m1, _) := insert_files (st_tpls s) fs [] in
+                             applicable (ev_prefixes ev) (sources m1) e'
            end
        | _, _ => false
        end) && check_run ev s' cs rs
@@ -48,6 +75,83 @@ Fixpoint check_run (ev : env) (s : state) (calls : list call) (impl : list (rres
 Definition check_history (c : hist_case) : bool :=
   check_run (mk_env (h_pre c) (h_known c)) (init (h_sufs c))
             (map (expand (h_pool c)) (h_calls c)) (h_impl c).
+
+(* ---- histories with load_from_glob / full_reload (cargo feature glob_fs).  For each glob
+   call the case carries what tera::load_from_glob(pattern) -- the engine's own directory walk,
+   called by the harness on the same directory just before -- answered, and what the harness put
+   into each matched file. *)
+Inductive hglob :=
+| HGInvalid                    (* the walk function returned Err (no `*` in the pattern) *)
+| HGFiles (fs : list hfile).   (* matched (path, name) pairs in the order the walk returned them *)
+
+Inductive hgcall :=
+| HG (c : hcall)
+| HGLoad (pat : name) (r : hglob)
+| HGReload (r : hglob).
+
+Record ghist_case := {
+  gh_pre : list name;
+  gh_known : list name;
+  gh_sufs : list name;
+  gh_pool : list (name * source);
+  gh_calls : list hgcall;
+  gh_impl : list (rres unit) }.
+
+Definition expand_glob (pool : list (name * source)) (r : hglob) : globres :=
+  match r with
+  | HGInvalid => GInvalid
+  | HGFiles fs => GFiles (map (expand_file pool) fs)
+  end.
+
+Definition gexpand (pool : list (name * source)) (c : hgcall) : gcall :=
+  match c with
+  | HG c => GCall (expand pool c)
+  | HGLoad pat r => GLoad pat (expand_glob pool r)
+  | HGReload r => GReload (expand_glob pool r)
+  end.
+
+Definition model_ghistory (c : ghist_case) : list (rres unit) :=
+  fst (grun (mk_env (gh_pre c) (gh_known c)) (ginit (gh_sufs c)) (map (gexpand (gh_pool c)) (gh_calls c))).
+
+(* the template map finalize was (or would have been) run on by this call, for the
+   kinds-applicable test *)
+Definition attempted (g : gstate) (c : gcall) : option tmap :=
+  let glob_map r :=
+      match r with
+      | GInvalid => None
+      | GFiles fs =>
+          let '(_, m1, _) := glob_insert (drop_globbed (gs_globbed g) (st_tpls (gs_st g))) fs false [] in
+          Some m1
+      end in
+  match c with
+  | GCall (CAdd b) => let '(_, m1, _) := insert_all (st_tpls (gs_st g)) b [] in Some m1
+  | GCall (CAddFiles fs) => let '(_, m1, _) := insert_files (st_tpls (gs_st g)) fs [] in Some m1
+  | GCall (CAuto _) => None
+  | GLoad _ r => glob_map r
+  | GReload r => match gs_glob g with Some _ => glob_map r | None => None end
+  end.
+
+Fixpoint check_grun (ev : env) (g : gstate) (calls : list gcall) (impl : list (rres unit)) : bool :=
+  match calls, impl with
+  | [], [] => true
+  | c :: cs, r :: rs =>
+      let '(mr, g') := gstep ev g c in
+      (match mr, r with
+       | Ok _, Ok _ => true
+       | Err e, Err e' =>
+           ekind_eqb e e' ||
+           match attempted g c with
+           | Some m1 => applicable (ev_prefixes ev) (sources m1) e'
+           | None => false
+           end
+       | _, _ => false
+       end) && check_grun ev g' cs rs
+  | _, _ => false
+  end.
+
+Definition check_ghistory (c : ghist_case) : bool :=
+  check_grun (mk_env (gh_pre c) (gh_known c)) (ginit (gh_sufs c))
+             (map (gexpand (gh_pool c)) (gh_calls c)) (gh_impl c).
 
 (* a history followed by render() of the given names on the long-lived instance (used by C11:
    the graph that is checked must be the graph of the WHOLE current set after every call) *)
